@@ -32,7 +32,9 @@ def validity(o):
 def evaluate_grid(spec):
     """one application record of n plaintext bytes whose ciphertext is carried by exactly k input segments"""
     n, k, code, ver, srv = spec["n"], spec["k"], spec["suite"], spec["version"], spec["srv"]
-    cs = {"kind": "tls", "seed": 50 + n * 13 + k, "version": ver, "suite": code, "history": [[1 - srv, 7, 0], [srv, n, 0], [1 - srv, 3, 0]],
+    late = spec.get("late", 0)
+    hist = [[1 - srv, 7, 0], [srv, n, 0], [1 - srv, 3, 0]] if not late else [[1 - srv, 7, 0], [srv, n, 0], [srv, 33, 0], [srv, 21, 0], [1 - srv, 3, 0]]
+    cs = {"kind": "tls", "seed": 50 + n * 13 + k, "version": ver, "suite": code, "history": hist,
           "ep": scenario.default_ep(k, v6=bool(spec.get("v6"))), "cert_len": 30}
     conn = tlsref.TlsConn(cs, tlsref.load_suites())
     spans = [s for s in scenario.record_spans(conn) if s[3] == "APP" and s[0] == bool(srv)]
@@ -45,6 +47,12 @@ def evaluate_grid(spec):
     cs["tcp"]["cuts"][int(not srv)] = sorted({x[2] for x in scenario.record_spans(conn) if x[0] != bool(srv)})
     sc = {"conns": [cs], "tseed": 3}
     b = scenario.build(sc)
+    if late:
+        # the LAST segment of the record is captured `late` places later: the records behind it (one segment each) are buffered when it
+        # arrives, all record boundaries inside that buffer lie on segment boundaries
+        mine = [i for i, s_ in enumerate(b.segs[0]) if s_["srv"] == bool(srv) and s_["off"] < e and s_["off"] + len(s_["data"]) > a]
+        cs["tcp"]["moves"] = [[mine[-1], late]]
+        b = scenario.build(sc)
     carrying = sum(1 for s_ in b.segs[0] if s_["srv"] == bool(srv) and s_["off"] < e and s_["off"] + len(s_["data"]) > a)
     o = oracle.run_e2e(b, engine.workdir())
     sig, detail = validity(o)
@@ -68,8 +76,8 @@ def evaluate_grid(spec):
                 sig, detail = "grid: record re-split into more segments than input packets carried it", f"n={n} k={carrying} segments={len(segs)}"
             elif n and any(off + len(p.payload) > n for off, p in segs):
                 sig, detail = "grid: a segment mixes two records", f"n={n} k={carrying}"
-    return {"sig": sig, "detail": detail + f" spec={spec}", "nontrivial": carrying >= 2, "labels": ["grid", "k=%d" % min(carrying, 12), "n:%s" % ("0" if n == 0 else "<k" if n < k else ">=k")],
-            "key": f"{n}/{carrying}/{code}/{ver}/{srv}"}
+    return {"sig": sig, "detail": detail + f" spec={spec}", "nontrivial": carrying >= 2, "labels": ["grid", "last-segment-late" if late else "in-order", "k=%d" % min(carrying, 12), "n:%s" % ("0" if n == 0 else "<k" if n < k else ">=k")],
+            "key": f"{n}/{carrying}/{code}/{ver}/{srv}/{late}"}
 
 
 def grid_specs(tier):
@@ -83,6 +91,13 @@ def grid_specs(tier):
             for code, ver in sets:
                 out.append({"n": n, "k": k, "suite": code, "version": ver, "srv": (i // 2) % 2, "v6": i % 3 == 0})
             i += 1
+    # ... and with the record's last segment overtaken by the one or two records that follow it
+    for n in (1, 7, 40, 256, 1400):
+        for k in (1, 2, 3, 4):
+            for late in (1, 2):
+                code, ver = kinds[i % len(kinds)]
+                out.append({"n": n, "k": k, "suite": code, "version": ver, "srv": i % 2, "v6": i % 3 == 0, "late": late})
+                i += 1
     return out
 
 
